@@ -38,6 +38,28 @@ def cases(rng, tier):
     return out
 
 
+def tie_cases(rng, tier):
+    """whole steps: the implementation against the regenerated model extracted to OCaml (the tie, no specification)"""
+    t = statelib.load_index(C.GEN)['tables']
+    out = []
+    n = 400 if tier == 'quick' else 20000
+    for k in range(n):
+        kind = rng.choice(['arm', 't16', 't32'])
+        st = stepgen.random_state(rng, t, thumb=(kind != 'arm'), mpu=rng.random() < 0.15)
+        if kind == 'arm':
+            stepgen.put_instr(st, stepgen.random_arm_word(rng), 32)
+        elif kind == 't16':
+            stepgen.put_instr(st, stepgen.random_thumb16(rng), 16)
+        else:
+            st['_thumb32'] = True
+            stepgen.put_instr(st, stepgen.random_thumb32(rng), 32)
+        cst = stepgen.clean(st)
+        out.append({'impl': {'kind': 'step', 'state': cst, 'n': 1}, 'model': None, 'model_line': stepgen.case_line(cst, t, 1),
+                    'spec': None, 'label': 'step_' + kind, 'nontrivial': True})
+    return out
+
+
 def units():
-    return [Unit('totality', ['C18_decode_total', 'C18_arm_total', 'C18_thumb32_total'], ['Proofs/DecodeTotal.v'], [], cases,
+    return [Unit('step_tie', [], [], [], tie_cases, IMPORTS, SPEC_IMPORTS),
+            Unit('totality', ['C18_decode_total', 'C18_arm_total', 'C18_thumb32_total'], ['Proofs/DecodeTotal.v'], [], cases,
                  IMPORTS, SPEC_IMPORTS)]
